@@ -12,7 +12,8 @@ from concurrent.futures import ThreadPoolExecutor
 rc, out = vcheck.make_coq(os.path.join(vcheck.ROOT, "coq", "lib"))
 if rc != 0:
     print(out[-3000:]); sys.exit(1)
-props = sorted(os.path.basename(os.path.dirname(p)) for p in glob.glob("props/C*/check.py"))
+integrated = set(open("tools/integrated.txt").read().split())
+props = sorted(p for p in (os.path.basename(os.path.dirname(p)) for p in glob.glob("props/C*/check.py")) if p in integrated)
 def one(p):
     rc, out = vcheck.build_coq(p)
     e, hout = vcheck.build_harness(p)
